@@ -137,6 +137,10 @@ def _exits(stmts):
             return True
         if isinstance(st, ast.For) and any(isinstance(x, ast.Return) for x in ast.walk(st)):
             return True
+        if RAISE_EXITS and (isinstance(st, ast.Assert) or any(isinstance(x, (ast.Assert, ast.Raise)) for x in ast.walk(st))
+                            or isinstance(st, ast.Expr) and isinstance(st.value, ast.Call)
+                            and ast.unparse(st.value.func).startswith("self._validate")):
+            return True                                       # validators: a failed assert leaves the function
     return False
 
 
